@@ -59,6 +59,8 @@ def cases(L):
         out.append(("prose+default:" + label, dict(a_doc=words(n, "p"), a_default=5)))
         out.append(("second_param:" + label, dict(b_doc=words(n, "q"), b_default="foo")))
         out.append(("literal_type:" + label, dict(a_typ=long_literal(n), a_default="choice number 0")))
+        out.append(("literal_type_noprose:" + label, dict(a_typ=long_literal(n), a_doc=None)))
+        out.append(("long_type_noprose:" + label, dict(a_typ=long_type(n), a_doc=None, a_default=5)))
     # absolute lengths: sweeping L moves the line break across every position of these texts
     for n in range(36, 141, 3):
         out.append(("fixed_default_sentence:%d" % n, dict(a_doc=words(n, "p") + ". Defaults to 5")))
@@ -87,6 +89,8 @@ def build_ir(spec):
     from collections import OrderedDict
 
     a = {"doc": spec.get("a_doc", "the a"), "typ": spec.get("a_typ", "int")}
+    if a["doc"] is None:  # an entry that has a type but no description
+        del a["doc"]
     if "a_default" in spec:
         a["default"] = spec["a_default"]
     b = {"doc": spec.get("b_doc", "the b"), "typ": "str"}
